@@ -123,6 +123,7 @@ pub(crate) const K_LEAF_ZERO: u8 = 21; // do_read_zero
 pub(crate) const K_LEAF_BACKING: u8 = 22; // do_read_backing
 pub(crate) const K_LEAF_COMPRESSED: u8 = 23; // do_read_compressed
 pub(crate) const K_LEAF_COW: u8 = 24; // do_write_cow
+pub(crate) const K_CLEARNEW: u8 = 25; // clear_new_cluster(cluster number)
 pub(crate) const K_TRYALLOC: u8 = 14; // try_alloc_from_rb_slice (off,len = granted run; len 0 = None)
 
 const NOREC: Rec = Rec { kind: K_NONE, entry: 0, off: 0, len: 0, buf_start: 0, flags: 0 };
@@ -217,7 +218,28 @@ impl KCache {
     }
 }
 
+/// stand-in for `new_cluster: AsyncRwLock<HashMap<u64, AsyncRwLock<bool>>>`: at most one registered
+/// cluster; the bool is "its zeroing has been taken care of"
+pub(crate) struct KNewCluster {
+    pub key: u64,
+    pub present: bool,
+    pub flag: KLock<bool>,
+}
+impl KNewCluster {
+    pub fn kread(&self) -> &KNewCluster {
+        self
+    }
+    pub fn get(&self, key: &u64) -> Option<&KLock<bool>> {
+        if self.present && *key == self.key {
+            Some(&self.flag)
+        } else {
+            None
+        }
+    }
+}
+
 pub(crate) struct KEnv {
+    pub new_cluster: KNewCluster,
     pub l2cache: KCache,
     pub info: Qcow2Info,
     pub free_cluster_offset: AtomicU64,
@@ -256,6 +278,7 @@ pub(crate) struct KBacking;
 impl KEnv {
     pub fn new(info: Qcow2Info) -> Self {
         KEnv {
+            new_cluster: KNewCluster { key: 0, present: false, flag: KLock::new(false) },
             l2cache: KCache::empty(),
             info,
             free_cluster_offset: AtomicU64::new(0),
@@ -497,6 +520,17 @@ impl KEnv {
     pub fn k_do_write_cow(&self, off: u64, m: &Mapping, buf: KBuf) -> Qcow2Result<()> {
         self.rec(Rec { kind: K_LEAF_COW, entry: m.cluster_offset.unwrap_or(u64::MAX), off, len: buf.len, ..NOREC });
         Ok(())
+    }
+    pub fn k_do_compressed_cow(&self, off_in_cls: usize, buf: &[u8], host_off: u64, _m: &Mapping) -> Qcow2Result<()> {
+        self.rec(Rec { kind: K_LEAF_COW, entry: host_off, off: off_in_cls as u64, len: buf.len(), flags: 1, ..NOREC });
+        Ok(())
+    }
+    pub fn k_do_back_cow(&self, virt_off: u64, off_in_cls: usize, buf: &[u8], host_off: u64) -> Qcow2Result<()> {
+        self.rec(Rec { kind: K_LEAF_COW, entry: host_off, off: off_in_cls as u64, len: buf.len(), flags: 2, buf_start: virt_off as usize, ..NOREC });
+        Ok(())
+    }
+    pub fn k_clear_new_cluster(&self, key: u64) {
+        self.rec(Rec { kind: K_CLEARNEW, off: key, ..NOREC });
     }
     /// the backend's fallocate: fails or succeeds (environment decides)
     pub fn k_file_fallocate(&self, off: u64, len: usize, flags: u32) -> KResult<()> {
